@@ -314,6 +314,10 @@ type vfsOpts struct {
 	AccessHeavy bool
 	// Drops: also generate rate-limit drops and unknown dedicated addresses.
 	Drops bool
+	// Malformed: also generate requests that are rejected for their form
+	// before any later stage: a malformed ECS option on the wire (FORMERR) and,
+	// on DoT, an invalid device ID in the TLS server name (handler error).
+	Malformed bool
 }
 
 func vfsDrawRule(t *rapid.T, label string, allowException bool) (r vfsRule) {
@@ -1139,6 +1143,8 @@ type vfsRequest struct {
 	EDNS     bool
 	DO       bool
 	ECS      netip.Prefix
+	BadECS   bool // malformed ECS option on the wire (stray host bits)
+	BadSNI   bool // invalid device ID under the device domain
 	Script   vfsScript
 	ReqID    agd.RequestID
 	Start    time.Time
@@ -1156,9 +1162,9 @@ func (r *vfsRequest) Host() string {
 func (r *vfsRequest) Debug() bool { return r.QClass == dns.ClassCHAOS }
 
 func (r *vfsRequest) String() string {
-	return fmt.Sprintf("req{%s client=%s(16=%t) local=%s sni=%q cpe=%q id=%s prof=%d dev=%d unknownDedicated=%t q=%s/%s/%s ecs=%v outcome=%s rl=%s/%s}",
+	return fmt.Sprintf("req{%s client=%s(16=%t) local=%s sni=%q cpe=%q id=%s prof=%d dev=%d unknownDedicated=%t q=%s/%s/%s ecs=%v badECS=%t outcome=%s rl=%s/%s}",
 		r.Server, r.Client, r.Client16, r.Local, r.SNI, r.CPEID, r.IDMode, r.Prof, r.Dev, r.UnknownDedicated,
-		r.Name, dns.TypeToString[r.QType], dns.ClassToString[r.QClass], r.ECS,
+		r.Name, dns.TypeToString[r.QType], dns.ClassToString[r.QClass], r.ECS, r.BadECS,
 		vfsOutcomeNames[r.Script.Outcome], vfsRLNames[r.Script.GlobalRL], vfsRLNames[r.Script.ProfRL])
 }
 
@@ -1229,6 +1235,10 @@ func vfsDrawRequest(t *rapid.T, s *vfsStack, o vfsOpts) (r *vfsRequest) {
 		modes = append(modes, "dnsif-unknown")
 	}
 
+	if o.Malformed {
+		modes = append(modes, "dot-bad-sni", "dot-bad-sni")
+	}
+
 	r.IDMode = rapid.SampledFrom(modes).Draw(t, "idMode")
 	known := false
 	switch r.IDMode {
@@ -1241,6 +1251,10 @@ func vfsDrawRequest(t *rapid.T, s *vfsStack, o vfsOpts) (r *vfsRequest) {
 		known = true
 	case "dot-sni-unknown":
 		r.Server, r.Local, r.SNI = vfsSrvDoT, vfsDoTAddr, "nodev."+vfsDeviceDomain
+	case "dot-bad-sni":
+		// Not a valid device ID: the device finder reports an error and no
+		// profile is recognised.
+		r.Server, r.Local, r.SNI, r.BadSNI = vfsSrvDoT, vfsDoTAddr, "!!bad!!."+vfsDeviceDomain, true
 	case "dns-none":
 		r.Server, r.Local = vfsSrvDNS, vfsDNSAddr
 	case "dns-cpe":
@@ -1347,6 +1361,10 @@ func vfsDrawRequest(t *rapid.T, s *vfsStack, o vfsOpts) (r *vfsRequest) {
 		}
 
 		r.EDNS = true
+	}
+
+	if o.Malformed && rapid.IntRange(0, 6).Draw(t, "badECS") == 0 {
+		r.BadECS, r.ECS, r.EDNS = true, netip.Prefix{}, true
 	}
 
 	// Scripted downstream behaviour.
@@ -1465,6 +1483,18 @@ func (s *vfsStack) serve(t *rapid.T, r *vfsRequest) (tr *vfsTrace) {
 		opt := m.IsEdns0()
 		if r.CPEID != "" {
 			opt.Option = append(opt.Option, &dns.EDNS0_LOCAL{Code: 65074, Data: []byte(r.CPEID)})
+		}
+
+		if r.BadECS {
+			// Raw payload (miekg's packer would mask the stray host bits
+			// away): family, source length 23, scope 0, and an address whose
+			// 24th bit is set.
+			data := []byte{0, 1, 23, 0, 192, 0, 3}
+			if r.Client.Is6() {
+				data = []byte{0, 2, 47, 0, 0x20, 1, 0xd, 0xb8, 0, 1}
+			}
+
+			opt.Option = append(opt.Option, &dns.EDNS0_LOCAL{Code: dns.EDNS0SUBNET, Data: data})
 		}
 
 		if r.ECS.IsValid() {
